@@ -103,11 +103,17 @@ def sanitized (t : Tok) : String :=
         | '\\' :: r => go fuel r (acc ++ "\\\\")
         | c :: r => go fuel r (acc.push c)
     "\\\"" ++ go (t.text.length + 1) t.text.toList "" ++ "\\\""
+  | .chr =>
+    -- `CharacterConstant.sanitized_str` (repair of finding D10): the quotes are kept, each backslash and double quote is escaped
+    "'" ++ String.ofList (t.text.toList.flatMap fun c => if c == '\\' || c == '"' then ['\\', c] else [c]) ++ "'"
   | _ => t.text
 
-/-- Lexer.stringify -/
+/-- Lexer.stringify (after the repair of finding D10): white space before the first token is dropped, white space between two
+    tokens is one blank (C11 6.10.3.2p2); the result is lexed again as one token (`prev_white` false; the caller sets it) -/
 def stringify (ts : List Tok) : Option Tok :=
-  let body := ts.foldl (fun acc p => acc ++ (if p.pw then " " else "") ++ sanitized p) ""
+  let body := match ts with
+    | [] => ""
+    | f :: r => r.foldl (fun acc p => acc ++ (if p.pw then " " else "") ++ sanitized p) (sanitized f)
   (tokenizeOne ("\"" ++ body ++ "\"").toList false).map (·.1)
 
 /-- MacroFunction.replace -/
@@ -195,7 +201,7 @@ def Macro.replaceFn (m : Macro) (inputArgs : List Arg) : Except Err (List Tok) :
                   | some a =>
                     match stringify a.raw with
                     | none => .error .type_
-                    | some t => go fuel rest'' (res ++ [(t, true)]) true false pmw
+                    | some t => go fuel rest'' (res ++ [({ t with pw := tok.pw }, true)]) true false pmw
             else go fuel rest' (res ++ [(tok, false)]) false false pmw
       go (m.replacement.length + 1) m.replacement [] false false false
     else .ok (m.replacement.map (·, false)))
